@@ -15,6 +15,7 @@ from os import access, R_OK
 from os.path import isfile
 
 from ruamel.yaml.comments import CommentedSet
+from ruamel.yaml.scalarbool import ScalarBoolean
 from yamlpath.patches.timestamp import (
     AnchoredTimeStamp,
     AnchoredDate,
@@ -201,6 +202,8 @@ def main():
             else:
                 if node is None:
                     node = "\x00"
+                elif isinstance(node, ScalarBoolean):
+                    node = bool(node)
                 elif isinstance(node, AnchoredDate):
                     node = node.date().isoformat()
                 elif isinstance(node, AnchoredTimeStamp):
